@@ -59,7 +59,7 @@ func c14(c *Ctx) {
 	for _, a := range h265Accessors {
 		fn := p.Func(a.fn)
 		if fn == nil {
-			r.Fatalf("anchor %s missing", a.fn)
+			missingAnchor(r, a.fn)
 			continue
 		}
 		m := bits.Run(p, fn)
@@ -74,7 +74,7 @@ func c14(c *Ctx) {
 	for _, tp := range h265TypePreds {
 		fn := p.Func(tp.fn)
 		if fn == nil {
-			r.Fatalf("anchor %s missing", tp.fn)
+			missingAnchor(r, tp.fn)
 			continue
 		}
 		m := bits.Run(p, fn)
@@ -132,7 +132,7 @@ func c14(c *Ctx) {
 		if f := p.Func(nme); f != nil {
 			na += loopAliasRule(c, f)
 		} else {
-			r.Fatalf("anchor %s missing", nme)
+			missingAnchor(r, nme)
 		}
 	}
 	r.Floor("per-element pointers into loop variables (DOND)", na, 1)
@@ -144,7 +144,7 @@ func c14(c *Ctx) {
 		if f := p.Func(nme); f != nil {
 			entries = append(entries, f)
 		} else {
-			r.Fatalf("anchor %s missing", nme)
+			missingAnchor(r, nme)
 		}
 	}
 	boundsFor(c, "C14", entries)
